@@ -21,6 +21,9 @@ CLAIMED = {
     "C03": ("exploration", "runtime monitor: panic trap + iterator-contract oracle (own command length table) over exhaustive short inputs and mutated valid frames/streams; every public accessor called; Miri/ASan legs in thorough",
             "All byte strings of length 0..3 (16.8 M) through all 12 entry points, every CID x every truncation point of all six command sets, every MHDR x length x FOptsLen, mutated valid frames and command streams, random strings up to 255 bytes; nested inputs (FOpts, decrypted payloads) fed back to the iterators.",
             "Command length table transcribed from LoRaWAN 1.0.4 / TS009 / TS005; an Err at an offset where the table finds a whole command counts as a breach.", "6/C03"),
+    "C04": ("exploration", "runtime monitor: panic trap + RNG-draw and poll budgets (bounded progress) around every public Device call; 'can still transmit' probe after every history; Miri leg in thorough",
+            "One authentic downlink per value of a byte position of every handled MAC command, every DLSettings byte x RxDelay x CFList class in JoinAccepts, every sequence of 3 (thorough: 4) symbols over a 26-symbol event alphabet, random histories of 200-2000 events mixing hostile MAC commands, hostile JoinAccepts, garbage/foreign/replayed/oversized/unknown-CID/truncated frames in RX1/RX2/Class C/rxc_listen, 9 regions x {OTAA, ABP} x 3 front-ends, scripted-counter and seeded RNG.",
+            "Application preconditions listed in the evidence (payload size, port 0 empty, set_datarate consistent with the mask); the radio never fails here.", "6/C04"),
     "C05": ("exploration", "runtime monitor: exhaustive hook-level counter arithmetic vs the statement's rule + reference acceptance model over device sessions (reference codec decides every verdict)",
             "Counter reconstruction is compared for all 2^16 wire values per `last` around every boundary class; sessions created at chosen counters receive fresh/replayed/reordered/far-future/forged/oversized frames in RX1, RX2 and Class C gaps on both front-ends and after every transaction the remembered counter, response, delivered payloads and MAC answers are compared with the model.",
             "Trusts the reference codec; size-limit clause only exercised clearly within/beyond the limit; hook verif::next_fcnt_down is a thin wrapper of the private function.", "6/C05"),
